@@ -596,9 +596,7 @@ impl FunctionCompiler<'_> {
             hir::Stmt::Continue {
                 label: Some(label), ..
             } => {
-                let continue_block = self.continues[&label];
-
-                self.builder.ins().jump(continue_block, &[]);
+                self.continue_to_label(label);
             }
             hir::Stmt::Continue { label: None, .. } => unreachable!(),
             hir::Stmt::Defer { expr, .. } => {
@@ -620,6 +618,30 @@ impl FunctionCompiler<'_> {
     fn break_to_label(&mut self, value: Option<Value>, label: hir::ScopeId) {
         let exit_block = self.exits[&label];
 
+        self.unwind_defers_to(label);
+
+        if let Some(value) = value {
+            self.builder
+                .ins()
+                .jump(exit_block, &[BlockArg::Value(value)]);
+        } else {
+            self.builder.ins().jump(exit_block, &[]);
+        };
+    }
+
+    /// This pushes a final jump instruction to the block, meaning additional operations
+    /// won't be allowed in the current block
+    fn continue_to_label(&mut self, label: hir::ScopeId) {
+        let continue_block = self.continues[&label];
+
+        self.unwind_defers_to(label);
+
+        self.builder.ins().jump(continue_block, &[]);
+    }
+
+    /// Runs the defers of every scope between here and the scope labelled `label`.
+    /// The defers of `label` itself are not run.
+    fn unwind_defers_to(&mut self, label: hir::ScopeId) {
         // run all the defers from here, backwards to the one we are breaking out of
 
         let mut used_frames = Vec::new();
@@ -646,14 +668,6 @@ impl FunctionCompiler<'_> {
         }
 
         self.defer_stack.extend(used_frames.into_iter().rev());
-
-        if let Some(value) = value {
-            self.builder
-                .ins()
-                .jump(exit_block, &[BlockArg::Value(value)]);
-        } else {
-            self.builder.ins().jump(exit_block, &[]);
-        };
     }
 
     fn store_default_in_memory(&mut self, expected_ty: Intern<Ty>, memory: MemoryLoc) {
@@ -1581,10 +1595,17 @@ impl FunctionCompiler<'_> {
                 if let Some(ty) = ty.into_real_type() {
                     self.builder.append_block_param(exit_block, ty);
                 }
-                if let Some(scope_id) = self.world_bodies[self.loc.file()].block_to_scope_id(expr) {
+                let scope_id = self.world_bodies[self.loc.file()].block_to_scope_id(expr);
+                if let Some(scope_id) = scope_id {
                     self.continues.insert(scope_id, header_block);
                     self.exits.insert(scope_id, exit_block);
                 }
+
+                // a loop has no defers of its own, but jumps to it must stop unwinding here
+                self.defer_stack.push(DeferFrame {
+                    id: scope_id,
+                    defers: Vec::new(),
+                });
 
                 self.builder.ins().jump(header_block, &[]);
                 self.builder.switch_to_block(header_block);
@@ -1604,6 +1625,8 @@ impl FunctionCompiler<'_> {
                 self.builder.seal_block(body_block);
 
                 self.compile_expr(body);
+
+                self.defer_stack.pop().expect("we just pushed this");
 
                 self.builder.ins().jump(header_block, &[]);
 
